@@ -520,8 +520,11 @@ theorem runHooks_single_is_forced [DecidableEq κ] (h : Hook κ α) (d : Drv)
 
 /-- Full completeness of the two-pass forcing logic for ticks with several hooks: every vector of
 per-hook decisions (each reachable unforced) that has at least one non-trivial component is produced
-by some tape.  Only the statement; proved here for one hook (`runHooks_single_is_forced`) — the
-general case needs a tape-framing lemma per hook kind and is exercised by the correspondence check. -/
+by some tape.  The two-pass tape-framing argument itself is proved for arbitrary hook kinds
+(`runHooks_reaches_every_framed_vector`, from per-hook `HookTarget` facts); the statement below is
+proved for all tick hook kinds except `KeyedSingletonHook` (`runHooks_reaches_every_vector_partial`);
+what is missing for the full statement is the framed decision space (`HookTarget`) of
+`KeyedSingletonHook` and of the `TopLevel*` hooks. -/
 def runHooksReachesEveryVectorStatement (κ α : Type) [DecidableEq κ] : Prop :=
   ∀ (hs : List (Hook κ α)) (tapes : List (List Nat)) (res : List (Bool × Hook κ α × List (Msg κ α))),
     (∀ h ∈ hs, h.cur = none) → tapes.length = hs.length → res.length = hs.length →
@@ -909,15 +912,729 @@ theorem tlFold_every_selection_reachable [DecidableEq α] (q sel rem : List α) 
 
 
 
-/-- the proved part of `runHooksReachesEveryVectorStatement`: ticks / observations with one hook —
-every decision the hook can make when forced is what `run_hooks` produces on the same tape
-(missing: several hooks, which needs a tape-framing lemma per hook kind) -/
-theorem runHooks_reaches_every_vector_partial [DecidableEq κ] (h : Hook κ α) (tape : List Nat)
+/-- ticks / observations with one hook: every decision the hook can make when forced is what
+`run_hooks` produces on the same tape -/
+theorem runHooks_single_hook_is_its_forced_decision [DecidableEq κ] (h : Hook κ α) (tape : List Nat)
     (hidle : h.cur = none) (hcan : h.canNT = true) {nt : Bool} {h1 h2 : Hook κ α} {d1 : Drv}
     {out : List (Msg κ α)} (ha : h.auto ⟨tape, []⟩ true = some (nt, h1, d1)) (hr : h1.release = some (h2, out)) :
     runHooks [h] ⟨tape, []⟩ = some ([h2], [out], nt, d1) := by
   rw [runHooks_single_is_forced h _ hidle hcan]
   simp [ha, hr]
+
+/-! ### `run_hooks` on several hooks: the tape-framing argument -/
+
+/-- pointwise relation between two lists of the same length -/
+inductive All₂ {A B : Type} (R : A → B → Prop) : List A → List B → Prop
+  | nil : All₂ R [] []
+  | cons {a b l₁ l₂} : R a b → All₂ R l₁ l₂ → All₂ R (a :: l₁) (b :: l₂)
+
+/-- the decision `(nt, h1)` of hook `h` under forcing `f` is produced by a tape *prefix* `t`, whatever
+follows on the tape and whatever was logged before: `autonomous_decision` consumes exactly `t` -/
+def FramedReach [DecidableEq κ] (h : Hook κ α) (f nt : Bool) (h1 : Hook κ α) : Prop :=
+  ∀ log : List Call, ∃ (t : List Nat) (log' : List Call), ∀ rest : List Nat,
+    h.auto ⟨t ++ rest, log⟩ f = some (nt, h1, ⟨rest, log'⟩)
+
+/-- what one hook of the tick is to do: its decision flag, its state after `autonomous_decision`,
+its state after `release_decision` and what it sends -/
+structure Target (κ α : Type) where
+  nt : Bool
+  decided : Hook κ α
+  released : Hook κ α
+  out : List (Msg κ α)
+
+/-- `t` is in the decision space of the idle hook `h`, in tape-framed form: reachable unforced, and —
+when it is non-trivial — reachable forced as well (`run_hooks` forces the last undecided hook when
+nothing non-trivial was decided before it) -/
+structure HookTarget [DecidableEq κ] (h : Hook κ α) (t : Target κ α) : Prop where
+  idle : h.cur = none
+  unforced : FramedReach h false t.nt t.decided
+  forced : t.nt = true → FramedReach h true true t.decided
+  rel : t.decided.release = some (t.released, t.out)
+  trivial_of_cannot : h.canNT = false → t.nt = false
+
+/-- the hook list after the first pass of `run_hooks`: hooks that cannot make a non-trivial decision
+are decided (trivially), the others are left for the second pass -/
+def pass1Result : List (Hook κ α) → List (Target κ α) → List (Hook κ α)
+  | h :: hs, t :: ts => (if h.canNT then h else t.decided) :: pass1Result hs ts
+  | _, _ => []
+
+theorem aux_pass1_framed [DecidableEq κ] {hs : List (Hook κ α)} {ts : List (Target κ α)}
+    (hft : All₂ HookTarget hs ts) :
+    ∀ (log : List Call) (made : Bool) (rem : Nat), ∃ tape log' made1 rem1, ∀ rest : List Nat,
+      runPass1 hs made rem ⟨tape ++ rest, log⟩ = some (pass1Result hs ts, made1, rem1, ⟨rest, log'⟩) := by
+  induction hft with
+  | nil => exact fun log made rem => ⟨[], log, made, rem, fun rest => by simp [runPass1, pass1Result]⟩
+  | @cons h t hs ts hht _ ih =>
+    intro log made rem
+    cases hcan : h.canNT with
+    | false =>
+      obtain ⟨t0, log1, h0⟩ := hht.unforced log
+      obtain ⟨tape', log', made1, rem1, hr⟩ := ih log1 made (rem - 1)
+      refine ⟨t0 ++ tape', log', made1, rem1, fun rest => ?_⟩
+      have ha := h0 (tape' ++ rest)
+      have hr' := hr rest
+      unfold runPass1
+      simp only [hht.idle, hcan, Bool.not_false, ↓reduceIte, List.append_assoc, ha, hr', pass1Result,
+        Bool.false_eq_true]
+    | true =>
+      obtain ⟨tape', log', made1, rem1, hr⟩ := ih log made rem
+      refine ⟨tape', log', made1, rem1, fun rest => ?_⟩
+      have hr' := hr rest
+      unfold runPass1
+      simp only [hht.idle, hcan, Bool.not_true, Bool.false_eq_true, ↓reduceIte, hr', pass1Result]
+
+/-- a hook as the second pass finds it -/
+inductive Pass2Rel [DecidableEq κ] : Hook κ α → Target κ α → Prop
+  | undecided {h t} : HookTarget h t → h.canNT = true → Pass2Rel h t
+  | decided {t} {b : Bool} : t.decided.cur = some b → t.decided.release = some (t.released, t.out) →
+      Pass2Rel t.decided t
+
+/-- some hook still undecided is to make a non-trivial decision -/
+def ntU : List (Hook κ α) → List (Target κ α) → Bool
+  | h :: hs, t :: ts => (h.cur.isNone && t.nt) || ntU hs ts
+  | _, _ => false
+
+theorem aux_ntU_undecided [DecidableEq κ] {hs : List (Hook κ α)} {ts : List (Target κ α)}
+    (h2 : All₂ Pass2Rel hs ts) (hz : undecided hs = 0) : ntU hs ts = false := by
+  induction h2 with
+  | nil => rfl
+  | @cons h t hs ts hp _ ih =>
+    cases hp with
+    | undecided hht hcan =>
+      simp [undecided, hht.idle, hcan] at hz
+    | decided hc _ =>
+      have hu : undecided (t.decided :: hs) = undecided hs := by simp [undecided, hc]
+      simp only [ntU, hc, Option.isNone_some, Bool.false_and, Bool.false_or]
+      exact ih (by rw [← hu]; exact hz)
+
+theorem aux_pass2_framed [DecidableEq κ] {hs : List (Hook κ α)} {ts : List (Target κ α)}
+    (h2 : All₂ Pass2Rel hs ts) :
+    ∀ (made : Bool) (rem : Nat), rem = undecided hs → (made || ntU hs ts) = true →
+    ∀ log : List Call, ∃ tape log', ∀ rest : List Nat,
+      runPass2 hs made rem ⟨tape ++ rest, log⟩
+        = some (ts.map (·.released), ts.map (·.out), true, ⟨rest, log'⟩) := by
+  induction h2 with
+  | nil =>
+    intro made rem _ hm log
+    simp only [ntU, Bool.or_false] at hm
+    exact ⟨[], log, fun rest => by simp [runPass2, hm]⟩
+  | @cons h t hs ts hp hrest ih =>
+    intro made rem hrem hm log
+    cases hp with
+    | undecided hht hcan =>
+      have hc := hht.idle
+      have hu : undecided (h :: hs) = undecided hs + 1 := by simp [undecided, hc, hcan]
+      have hne : (rem == 0) = false := by rw [hrem, hu]; simp
+      cases hforce : (!made && rem == 1) with
+      | true =>
+        simp only [Bool.and_eq_true, Bool.not_eq_true', beq_iff_eq] at hforce
+        obtain ⟨hmade, hrem1⟩ := hforce
+        have hz : undecided hs = 0 := by omega
+        have hnt : t.nt = true := by
+          have := aux_ntU_undecided hrest hz
+          simpa [ntU, hmade, hc, this] using hm
+        obtain ⟨t0, log1, h0⟩ := hht.forced hnt log
+        obtain ⟨tape', log', hr⟩ := ih (made || true) (rem - 1) (by omega) (by simp) log1
+        refine ⟨t0 ++ tape', log', fun rest => ?_⟩
+        have ha := h0 (tape' ++ rest)
+        have hr' := hr rest
+        unfold runPass2
+        have hf : (!made && rem == 1) = true := by simp [hmade, hrem1]
+        simp only [hc, hf, List.append_assoc, ha, hne, Bool.false_eq_true, ↓reduceIte, hht.rel, hr',
+          List.map_cons]
+      | false =>
+        obtain ⟨t0, log1, h0⟩ := hht.unforced log
+        obtain ⟨tape', log', hr⟩ := ih (made || t.nt) (rem - 1) (by omega) (by
+          simp only [ntU, hc, Option.isNone_none, Bool.true_and] at hm
+          simpa [Bool.or_assoc] using hm) log1
+        refine ⟨t0 ++ tape', log', fun rest => ?_⟩
+        have ha := h0 (tape' ++ rest)
+        have hr' := hr rest
+        unfold runPass2
+        simp only [hc, hforce, List.append_assoc, ha, hne, Bool.false_eq_true, ↓reduceIte, hht.rel, hr',
+          List.map_cons]
+    | decided hc hrel =>
+      have hu : undecided (t.decided :: hs) = undecided hs := by simp [undecided, hc]
+      obtain ⟨tape', log', hr⟩ := ih made rem (by rw [hrem, hu]) (by
+        simpa [ntU, hc] using hm) log
+      refine ⟨tape', log', fun rest => ?_⟩
+      have hr' := hr rest
+      unfold runPass2
+      simp only [hc, hrel, hr', List.map_cons]
+
+theorem aux_pass1Result_rel [DecidableEq κ] {hs : List (Hook κ α)} {ts : List (Target κ α)}
+    (hft : All₂ HookTarget hs ts) : All₂ Pass2Rel (pass1Result hs ts) ts := by
+  induction hft with
+  | nil => exact .nil
+  | @cons h t hs ts hht _ ih =>
+    simp only [pass1Result]
+    refine .cons ?_ ih
+    cases hcan : h.canNT with
+    | true => simpa using Pass2Rel.undecided hht hcan
+    | false =>
+      obtain ⟨t0, log', h0⟩ := hht.unforced []
+      have hsome := aux_auto_cur h (h0 [])
+      obtain ⟨b, hb⟩ := Option.isSome_iff_exists.mp hsome
+      simpa using Pass2Rel.decided hb hht.rel
+
+theorem aux_ntU_pass1 [DecidableEq κ] {hs : List (Hook κ α)} {ts : List (Target κ α)}
+    (hft : All₂ HookTarget hs ts) (hsome : ∃ t ∈ ts, t.nt = true) :
+    ntU (pass1Result hs ts) ts = true := by
+  induction hft with
+  | nil => simp at hsome
+  | @cons h t hs ts hht _ ih =>
+    obtain ⟨t', ht', hnt⟩ := hsome
+    simp only [List.mem_cons] at ht'
+    rcases ht' with rfl | ht'
+    · have hcan : h.canNT = true := by
+        cases hc : h.canNT with
+        | true => rfl
+        | false => have := hht.trivial_of_cannot hc; simp [this] at hnt
+      simp [pass1Result, ntU, hcan, hht.idle, hnt]
+    · simp [pass1Result, ntU, ih ⟨t', ht', hnt⟩]
+
+/-- **Multi-hook completeness of `run_hooks`** (the tape-framing argument): for a tick with idle
+hooks, *every* vector of per-hook decisions, each taken from that hook's (framed) decision space,
+with at least one non-trivial component, is produced by some tape — the concatenation of the
+per-hook tape prefixes, first the trivially decided hooks (first pass), then the others in order
+(second pass), where the last undecided hook uses its forced tape iff nothing non-trivial was
+decided before it. -/
+theorem runHooks_reaches_every_framed_vector [DecidableEq κ] {hs : List (Hook κ α)} {ts : List (Target κ α)}
+    (hft : All₂ HookTarget hs ts) (hsome : ∃ t ∈ ts, t.nt = true) :
+    ∃ tape d', runHooks hs ⟨tape, []⟩ = some (ts.map (·.released), ts.map (·.out), true, d') := by
+  have hidle : ∀ h ∈ hs, h.cur = none := by
+    intro h hh
+    clear hsome
+    induction hft with
+    | nil => simp at hh
+    | cons hht _ ih =>
+      simp only [List.mem_cons] at hh
+      rcases hh with rfl | hh
+      · exact hht.idle
+      · exact ih hh
+  obtain ⟨tape1, log1, made1, rem1, hp1⟩ := aux_pass1_framed hft [] false hs.length
+  have hrel := aux_pass1Result_rel hft
+  obtain ⟨hm1, _, hu1, hr1⟩ := aux_pass1 hs false hs.length _ hidle (hp1 [])
+  have hle := aux_canCount_le hs
+  have hrem : rem1 = undecided (pass1Result hs ts) := by rw [hr1, hu1]; omega
+  obtain ⟨tape2, log2, hp2⟩ := aux_pass2_framed hrel false rem1 hrem
+    (by simp [aux_ntU_pass1 hft hsome]) log1
+  refine ⟨tape1 ++ tape2, ⟨[], log2⟩, ?_⟩
+  have := hp2 []
+  simp only [List.append_nil] at this
+  simp only [runHooks, hp1 tape2, hm1, this]
+
+/-! ### the framed decision spaces of the tick hooks -/
+
+theorem hookTarget_passthrough [DecidableEq κ] {q : List α} {last : Option α} {d d1 : Drv} {nt : Bool}
+    {h1 h2 : Hook κ α} {out : List (Msg κ α)}
+    (ha : (Hook.passthrough q none last).auto d false = some (nt, h1, d1)) (hr : h1.release = some (h2, out)) :
+    HookTarget (Hook.passthrough q none last) ⟨nt, h1, h2, out⟩ := by
+  simp only [Hook.auto, Option.map_eq_some_iff] at ha
+  obtain ⟨⟨nt1, q1, r1⟩, hh, heq⟩ := ha
+  simp only [Prod.mk.injEq] at heq
+  obtain ⟨rfl, rfl, rfl⟩ := heq
+  refine ⟨rfl, fun log => ⟨[], log, fun rest => by simp [Hook.auto, hh]⟩, ?_, hr, ?_⟩
+  · intro hnt
+    simp only at hnt
+    subst hnt
+    refine fun log => ⟨[], log, fun rest => ?_⟩
+    unfold passthroughAuto at hh
+    split at hh
+    · rename_i item hl
+      simp only [Option.some.injEq, Prod.mk.injEq] at hh
+      obtain ⟨_, rfl, rfl⟩ := hh
+      simp [Hook.auto, passthroughAuto, hl]
+    · split at hh
+      · simp at hh
+      · split at hh <;> simp at hh
+  · intro hcan
+    simp only [Hook.canNT, Bool.not_eq_eq_eq_not, Bool.not_false, List.isEmpty_iff] at hcan
+    subst hcan
+    simp only [passthroughAuto, List.getLast?_nil, Bool.false_eq_true, ↓reduceIte] at hh
+    split at hh
+    · simp only [Option.some.injEq, Prod.mk.injEq] at hh; exact hh.1.symm
+    · simp at hh
+
+theorem hookTarget_streamTotal [DecidableEq κ] {q : List α} {d d1 : Drv} {nt : Bool}
+    {h1 h2 : Hook κ α} {out : List (Msg κ α)}
+    (ha : (Hook.streamTotal q none).auto d false = some (nt, h1, d1)) (hr : h1.release = some (h2, out)) :
+    HookTarget (Hook.streamTotal q none) ⟨nt, h1, h2, out⟩ := by
+  simp only [Hook.auto, Option.map_eq_some_iff] at ha
+  obtain ⟨⟨r1, q1, nt1, d1'⟩, hh, heq⟩ := ha
+  simp only [Prod.mk.injEq] at heq
+  obtain ⟨rfl, rfl, rfl⟩ := heq
+  unfold streamTotalAuto at hh
+  split at hh
+  · simp at hh
+  · rename_i c dc hc
+    simp only [Option.some.injEq, Prod.mk.injEq] at hh
+    obtain ⟨rfl, rfl, rfl, rfl⟩ := hh
+    have hrange := aux_nat_range hc
+    simp only [Bool.false_eq_true, ↓reduceIte] at hrange
+    refine ⟨rfl, fun log => ⟨[c], .u 0 q.length c :: log, fun rest => ?_⟩, ?_, hr, ?_⟩
+    · have := aux_nat_hit 0 q.length c log rest (Nat.zero_le _) hrange.2
+      simp only [Nat.sub_zero] at this
+      simp [Hook.auto, streamTotalAuto, this]
+    · intro hnt
+      simp only [decide_eq_true_eq] at hnt
+      refine fun log => ⟨[c - 1], .u 1 q.length c :: log, fun rest => ?_⟩
+      have := aux_nat_hit 1 q.length c log rest hnt hrange.2
+      simp [Hook.auto, streamTotalAuto, this, hnt]
+    · intro hcan
+      simp only [Hook.canNT, Bool.not_eq_eq_eq_not, Bool.not_false, List.isEmpty_iff] at hcan
+      subst hcan
+      simp only [List.length_nil] at hrange
+      simp only [decide_eq_false_iff_not]
+      omega
+
+theorem hookTarget_singleton [DecidableEq κ] {s : SingSt α} (hs : s.rel = none) {d d1 : Drv} {nt : Bool}
+    {h1 h2 : Hook κ α} {out : List (Msg κ α)}
+    (ha : (Hook.singleton s).auto d false = some (nt, h1, d1)) (hr : h1.release = some (h2, out)) :
+    HookTarget (Hook.singleton (κ := κ) s) ⟨nt, h1, h2, out⟩ := by
+  simp only [Hook.auto, Option.map_eq_some_iff] at ha
+  obtain ⟨⟨nt1, s1, d1'⟩, hh, heq⟩ := ha
+  simp only [Prod.mk.injEq] at heq
+  obtain ⟨rfl, rfl, rfl⟩ := heq
+  have hidle : (Hook.singleton (κ := κ) s).cur = none := by simp [Hook.cur, hs]
+  unfold singletonAuto at hh
+  split at hh
+  · -- empty buffer: the last snapshot again, no draw
+    rename_i hq
+    simp only [Bool.false_eq_true, ↓reduceIte] at hh
+    split at hh
+    · rename_i l hl
+      simp only [Option.some.injEq, Prod.mk.injEq] at hh
+      obtain ⟨rfl, rfl, rfl⟩ := hh
+      refine ⟨hidle, fun log => ⟨[], log, fun rest => by simp [Hook.auto, singletonAuto, hq, hl]⟩, by simp, hr,
+        fun _ => rfl⟩
+    · simp at hh
+  · rename_i hq
+    have hcanT : (Hook.singleton (κ := κ) s).canNT = true := by simp [Hook.canNT, hq]
+    rcases hsd : d.boolIf (!false && s.last.isSome) with ⟨rr, dd⟩
+    simp only [hsd] at hh
+    split at hh
+    · -- the unchanged snapshot (only drawn when there is one)
+      split at hh
+      · rename_i l hl
+        simp only [Option.some.injEq, Prod.mk.injEq] at hh
+        obtain ⟨rfl, rfl, rfl⟩ := hh
+        refine ⟨hidle, fun log => ⟨[1], .b true :: log, fun rest => ?_⟩, by simp, hr, fun hc => by simp [hcanT] at hc⟩
+        have hb := aux_boolIf_hit true log rest
+        simp only [↓reduceIte] at hb
+        simp [Hook.auto, singletonAuto, hq, hl, hb]
+      · simp at hh
+    · split at hh
+      · simp at hh
+      · rename_i idx d2 hidx
+        have hrange := aux_natEx_range hidx
+        split at hh
+        · simp at hh
+        · rename_i item rst hdrop
+          simp only [Option.some.injEq, Prod.mk.injEq] at hh
+          obtain ⟨rfl, rfl, rfl⟩ := hh
+          have hforced : FramedReach (Hook.singleton (κ := κ) s) true true
+              (.singleton { q := rst, rel := some (item, true), last := s.last, skipped := s.q.take idx }) := by
+            intro log
+            refine ⟨[idx], .u 0 (s.q.length - 1) idx :: log, fun rest => ?_⟩
+            have := aux_natEx_hit 0 s.q.length idx log rest (Nat.zero_le _) hrange.2
+            simp only [Nat.sub_zero] at this
+            simp [Hook.auto, singletonAuto, hq, aux_boolIf_false, this, hdrop]
+          refine ⟨hidle, ?_, fun _ => hforced, hr, fun hc => by simp [hcanT] at hc⟩
+          cases hl : s.last.isSome with
+          | false =>
+            refine fun log => ⟨[idx], .u 0 (s.q.length - 1) idx :: log, fun rest => ?_⟩
+            have := aux_natEx_hit 0 s.q.length idx log rest (Nat.zero_le _) hrange.2
+            simp only [Nat.sub_zero] at this
+            simp [Hook.auto, singletonAuto, hq, hl, aux_boolIf_false, this, hdrop]
+          | true =>
+            refine fun log => ⟨[0, idx], .u 0 (s.q.length - 1) idx :: .b false :: log, fun rest => ?_⟩
+            have hb := aux_boolIf_hit false log (idx :: rest)
+            simp only [Bool.false_eq_true, ↓reduceIte] at hb
+            have := aux_natEx_hit 0 s.q.length idx (.b false :: log) rest (Nat.zero_le _) hrange.2
+            simp only [Nat.sub_zero] at this
+            simp [Hook.auto, singletonAuto, hq, hl, hb, this, hdrop]
+
+theorem aux_streamNoLoop_framed : ∀ (fuel : Nat) (pre post out : List α) (log : List Call) (force : Bool)
+    (sel rem : List α), fuel = (pre ++ post).length → (post = [] → pre = []) → Split post sel rem →
+    ((force && out.isEmpty) = true → sel ≠ []) →
+    ∃ tape log', ∀ rest, streamNoLoop fuel force (pre ++ post) out pre.length ⟨tape ++ rest, log⟩
+      = some (out ++ sel, pre ++ rem, ⟨rest, log'⟩) := by
+  intro fuel
+  induction fuel with
+  | zero =>
+    intro pre post out log force sel rem hf hp hs _
+    have hq : pre ++ post = [] := List.length_eq_zero_iff.mp hf.symm
+    simp only [List.append_eq_nil_iff] at hq
+    obtain ⟨rfl, rfl⟩ := hq
+    obtain ⟨rfl, rfl⟩ := aux_split_of_nil hs
+    exact ⟨[], log, fun rest => by simp [streamNoLoop]⟩
+  | succ n ih =>
+    intro pre post out log force sel rem hf hp hs hforce
+    by_cases hpost : post = []
+    · subst hpost
+      have := hp rfl; subst this
+      obtain ⟨rfl, rfl⟩ := aux_split_of_nil hs
+      exact ⟨[], log, fun rest => by simp [streamNoLoop]⟩
+    · have hne : (pre ++ post).isEmpty = false := by
+        cases post with
+        | nil => exact absurd rfl hpost
+        | cons _ _ => simp
+      cases sel with
+      | nil =>
+        have hrem := aux_split_nil_left hs
+        subst hrem
+        have hmust : (force && out.isEmpty) = false := by
+          cases hm : (force && out.isEmpty) with
+          | false => rfl
+          | true => exact absurd rfl (hforce hm)
+        refine ⟨[1], .b true :: log, fun rest => ?_⟩
+        unfold streamNoLoop
+        simp only [hne, Bool.false_eq_true, ↓reduceIte, hmust, Bool.not_false]
+        have := aux_boolIf_hit true log rest
+        simp only [↓reduceIte] at this
+        simp only [List.cons_append, List.nil_append, this, ↓reduceIte, List.append_nil]
+      | cons x s' =>
+        obtain ⟨a, b, r', hl, hr, hsb⟩ := aux_split_first hs
+        subst hr
+        have hidx : (pre ++ post)[(pre ++ a).length]? = some x := by
+          rw [hl, ← List.append_assoc]; simp
+        have hlen : (pre ++ a).length < (pre ++ post).length := by
+          rw [hl]; simp
+        have herase : (pre ++ post).eraseIdx (pre ++ a).length = (pre ++ a) ++ b := by
+          rw [hl, ← List.append_assoc, List.eraseIdx_append_of_length_le (Nat.le_refl _)]; simp
+        have hrec : ∀ log', ∃ tape log'', ∀ rest, (if ((pre ++ a).length == ((pre ++ a) ++ b).length) = true
+              then some (out ++ [x], (pre ++ a) ++ b, (⟨tape ++ rest, log'⟩ : Drv))
+              else streamNoLoop n force ((pre ++ a) ++ b) (out ++ [x]) (pre ++ a).length ⟨tape ++ rest, log'⟩)
+            = some (out ++ x :: s', pre ++ (a ++ r'), ⟨rest, log''⟩) := by
+          intro log'
+          cases hb : b with
+          | nil =>
+            subst hb
+            obtain ⟨rfl, rfl⟩ := aux_split_of_nil hsb
+            exact ⟨[], log', fun rest => by simp⟩
+          | cons b0 bs =>
+            have hneq : ((pre ++ a).length == ((pre ++ a) ++ b).length) = false := by
+              simp [hb]
+            have hfuel : n = ((pre ++ a) ++ b).length := by
+              have := hf; rw [hl] at this; simp at this ⊢; omega
+            obtain ⟨tape, log'', ht⟩ := ih (pre ++ a) b (out ++ [x]) log' force s' r' hfuel
+              (by intro hbn; simp [hb] at hbn) hsb (by simp)
+            refine ⟨tape, log'', fun rest => ?_⟩
+            rw [← hb, hneq]
+            simp only [Bool.false_eq_true, ↓reduceIte]
+            simpa [List.append_assoc] using ht rest
+        cases hm : (force && out.isEmpty) with
+        | true =>
+          obtain ⟨tape, log'', ht⟩ := hrec (.u pre.length ((pre ++ post).length - 1) (pre ++ a).length :: log)
+          refine ⟨((pre ++ a).length - pre.length) :: tape, log'', fun rest => ?_⟩
+          unfold streamNoLoop
+          simp only [hne, Bool.false_eq_true, ↓reduceIte, hm, Bool.not_true, aux_boolIf_false, List.cons_append]
+          rw [aux_natEx_hit pre.length (pre ++ post).length (pre ++ a).length log (tape ++ rest) (by simp) hlen]
+          simp only [hidx, herase]
+          exact ht rest
+        | false =>
+          obtain ⟨tape, log'', ht⟩ := hrec (.u pre.length ((pre ++ post).length - 1) (pre ++ a).length :: .b false :: log)
+          refine ⟨0 :: ((pre ++ a).length - pre.length) :: tape, log'', fun rest => ?_⟩
+          unfold streamNoLoop
+          simp only [hne, Bool.false_eq_true, ↓reduceIte, hm, Bool.not_false, List.cons_append]
+          have hb0 := aux_boolIf_hit false log (((pre ++ a).length - pre.length) :: (tape ++ rest))
+          simp only [Bool.false_eq_true, ↓reduceIte] at hb0
+          simp only [hb0, Bool.false_eq_true, ↓reduceIte]
+          rw [aux_natEx_hit pre.length (pre ++ post).length (pre ++ a).length _ (tape ++ rest) (by simp) hlen]
+          simp only [hidx, herase]
+          exact ht rest
+
+theorem hookTarget_streamNo [DecidableEq κ] {q : List α} {d d1 : Drv} {nt : Bool}
+    {h1 h2 : Hook κ α} {out : List (Msg κ α)}
+    (ha : (Hook.streamNo q none).auto d false = some (nt, h1, d1)) (hr : h1.release = some (h2, out)) :
+    HookTarget (Hook.streamNo q none) ⟨nt, h1, h2, out⟩ := by
+  simp only [Hook.auto, Option.map_eq_some_iff] at ha
+  obtain ⟨⟨r1, q1, nt1, d1'⟩, hh, heq⟩ := ha
+  simp only [Prod.mk.injEq] at heq
+  obtain ⟨rfl, rfl, rfl⟩ := heq
+  obtain ⟨hsplit, _, _, hnt⟩ := streamNo_released_is_sublist hh
+  have hntv : nt1 = !r1.isEmpty := by
+    cases r1 <;> cases nt1 <;> simp_all
+  have reach : ∀ f : Bool, (f = true → r1 ≠ []) → FramedReach (Hook.streamNo (κ := κ) q none) f nt1 (.streamNo q1 (some r1)) := by
+    intro f hf log
+    obtain ⟨tape, log', ht⟩ := aux_streamNoLoop_framed q.length [] q [] log f r1 q1 (by simp) (by simp) hsplit
+      (by intro h; simp at h; exact hf h)
+    refine ⟨tape, log', fun rest => ?_⟩
+    have := ht rest
+    simp only [List.nil_append, List.length_nil] at this
+    simp [Hook.auto, streamNoAuto, this, hntv]
+  refine ⟨rfl, reach false (by simp), ?_, hr, ?_⟩
+  · intro hn
+    simp only at hn
+    have := reach true (fun _ => hnt.mp hn)
+    rwa [hn] at this
+  · intro hcan
+    simp only [Hook.canNT, Bool.not_eq_eq_eq_not, Bool.not_false, List.isEmpty_iff] at hcan
+    subst hcan
+    obtain ⟨rfl, _⟩ := aux_split_of_nil hsplit
+    simp [hntv]
+
+theorem aux_keyedTotal_framed {m m' : KMap κ α} {rel : List (κ × α)} (h : KeyedRel PrefixP m rel m') :
+    ∀ (force : Bool) (log : List Call), (force = true → rel ≠ []) →
+    ∃ tape log', ∀ rest, keyedTotalLoop m (nonemptyKeyCount m) force ⟨tape ++ rest, log⟩ = some (rel, m', ⟨rest, log'⟩) := by
+  induction h with
+  | nil => intro force log _; exact ⟨[], log, fun rest => by simp [keyedTotalLoop]⟩
+  | @cons k q r q' m0 rel0 m0' hp hrest ih =>
+    intro force log hf
+    have hp' : r ++ q' = q := hp
+    by_cases hq : q.isEmpty = true
+    · have hqe : q = [] := by simpa using hq
+      subst hqe
+      simp only [List.append_eq_nil_iff] at hp'
+      obtain ⟨rfl, rfl⟩ := hp'
+      obtain ⟨tape, log', ht⟩ := ih force log (by simpa using hf)
+      refine ⟨tape, log', fun rest => ?_⟩
+      unfold keyedTotalLoop
+      simp only [List.isEmpty_nil, ↓reduceIte, aux_nonemptyKeyCount_cons_empty (k := k) (rest := m0) hq, ht rest,
+        List.map_nil, List.nil_append]
+    · have hcnt := aux_nonemptyKeyCount_cons_nonempty (k := k) (rest := m0) hq
+      have htake : q.take r.length = r := by rw [← hp']; simp
+      have hdrop : q.drop r.length = q' := by rw [← hp']; simp
+      have hlen : r.length ≤ q.length := by rw [← hp']; simp
+      have hlo : (if (force && nonemptyKeyCount m0 == 0) = true then 1 else 0) ≤ r.length := by
+        split
+        · rename_i hc
+          simp only [Bool.and_eq_true, beq_iff_eq] at hc
+          have hrel0 := aux_keyedRel_empty (P := PrefixP) (by intro r q' h; simp [PrefixP] at h; exact h.1) hrest hc.2
+          have := hf hc.1
+          rw [hrel0] at this
+          cases r with
+          | nil => simp at this
+          | cons _ _ => simp
+        · exact Nat.zero_le _
+      obtain ⟨tape, log', ht⟩ := ih (if 0 < r.length then false else force)
+        (.u (if (force && nonemptyKeyCount m0 == 0) = true then 1 else 0) q.length r.length :: log) (by
+          intro hff
+          split at hff
+          · simp at hff
+          · rename_i h0
+            have : r = [] := by cases r with
+              | nil => rfl
+              | cons _ _ => simp at h0
+            subst this
+            simpa using hf hff)
+      refine ⟨(r.length - (if (force && nonemptyKeyCount m0 == 0) = true then 1 else 0)) :: tape, log', fun rest => ?_⟩
+      unfold keyedTotalLoop
+      simp only [hq, Bool.false_eq_true, ↓reduceIte, hcnt, Nat.add_sub_cancel, List.cons_append]
+      rw [aux_nat_hit _ _ r.length log (tape ++ rest) hlo hlen]
+      simp only [ht rest, htake, hdrop]
+
+theorem aux_keyedNo_framed {m m' : KMap κ α} {rel : List (κ × α)} (h : KeyedRel Split m rel m') :
+    ∀ (force : Bool) (log : List Call), (force = true → rel ≠ []) →
+    ∃ tape log', ∀ rest, keyedNoLoop m (nonemptyKeyCount m) force ⟨tape ++ rest, log⟩ = some (rel, m', ⟨rest, log'⟩) := by
+  induction h with
+  | nil => intro force log _; exact ⟨[], log, fun rest => by simp [keyedNoLoop]⟩
+  | @cons k q r q' m0 rel0 m0' hp hrest ih =>
+    intro force log hf
+    by_cases hq : q.isEmpty = true
+    · have hqe : q = [] := by simpa using hq
+      subst hqe
+      obtain ⟨rfl, rfl⟩ := aux_split_of_nil hp
+      obtain ⟨tape, log', ht⟩ := ih force log (by simpa using hf)
+      refine ⟨tape, log', fun rest => ?_⟩
+      unfold keyedNoLoop
+      simp only [List.isEmpty_nil, ↓reduceIte, aux_nonemptyKeyCount_cons_empty (k := k) (rest := m0) hq, ht rest,
+        List.map_nil, List.nil_append]
+    · have hcnt := aux_nonemptyKeyCount_cons_nonempty (k := k) (rest := m0) hq
+      have hqne : q ≠ [] := by intro hh; subst hh; simp at hq
+      have hmust : (force && nonemptyKeyCount m0 == 0) = true → r ≠ [] := by
+        intro hc
+        simp only [Bool.and_eq_true, beq_iff_eq] at hc
+        have hrel0 := aux_keyedRel_empty (P := Split) (fun r q' h => (aux_split_of_nil h).1) hrest hc.2
+        have := hf hc.1
+        rw [hrel0] at this
+        intro hr; subst hr; simp at this
+      obtain ⟨tape1, log1, ht1⟩ := aux_keyedNoInner_complete q.length [] q [] log force (nonemptyKeyCount m0) r q'
+        (by simp) (by intro h; exact absurd h hqne) hp hmust
+      simp only [List.nil_append, List.length_nil] at ht1
+      obtain ⟨tape2, log', ht2⟩ := ih (if r.isEmpty then force else false) log1 (by
+        intro hff
+        cases r with
+        | nil => simpa using hf (by simpa using hff)
+        | cons _ _ => simp at hff)
+      refine ⟨tape1 ++ tape2, log', fun rest => ?_⟩
+      unfold keyedNoLoop
+      simp only [hq, Bool.false_eq_true, ↓reduceIte, hcnt, Nat.add_sub_cancel, List.append_assoc,
+        ht1 (tape2 ++ rest), ht2 rest]
+
+theorem aux_kmapAllEmpty_count {m : KMap κ α} (h : kmapAllEmpty m = true) : nonemptyKeyCount m = 0 := by
+  induction m with
+  | nil => rfl
+  | cons e rest ih =>
+    obtain ⟨k, q⟩ := e
+    simp only [kmapAllEmpty, List.all_cons, Bool.and_eq_true] at h
+    rw [aux_nonemptyKeyCount_cons_empty h.1]
+    exact ih (by simpa [kmapAllEmpty] using h.2)
+
+theorem hookTarget_keyedTotal [DecidableEq κ] {m : KMap κ α} {d d1 : Drv} {nt : Bool}
+    {h1 h2 : Hook κ α} {out : List (Msg κ α)}
+    (ha : (Hook.keyedTotal m none).auto d false = some (nt, h1, d1)) (hr : h1.release = some (h2, out)) :
+    HookTarget (Hook.keyedTotal m none) ⟨nt, h1, h2, out⟩ := by
+  simp only [Hook.auto, Option.map_eq_some_iff] at ha
+  obtain ⟨⟨r1, m1, nt1, d1'⟩, hh, heq⟩ := ha
+  simp only [Prod.mk.injEq] at heq
+  obtain ⟨rfl, rfl, rfl⟩ := heq
+  obtain ⟨hrel, hnt⟩ := keyedTotal_released_is_prefix_per_key hh
+  have hntv : nt1 = !r1.isEmpty := by
+    cases r1 <;> cases nt1 <;> simp_all
+  have reach : ∀ f : Bool, (f = true → r1 ≠ []) → FramedReach (Hook.keyedTotal m none) f nt1 (.keyedTotal m1 (some r1)) := by
+    intro f hf log
+    obtain ⟨tape, log', ht⟩ := aux_keyedTotal_framed hrel f log hf
+    exact ⟨tape, log', fun rest => by simp [Hook.auto, keyedTotalAuto, ht rest, hntv]⟩
+  refine ⟨rfl, reach false (by simp), ?_, hr, ?_⟩
+  · intro hn
+    simp only at hn
+    have := reach true (fun _ => hnt.mp hn)
+    rwa [hn] at this
+  · intro hcan
+    simp only [Hook.canNT, Bool.not_eq_eq_eq_not, Bool.not_false] at hcan
+    have := aux_keyedRel_empty (P := PrefixP) (by intro r q' h; simp [PrefixP] at h; exact h.1) hrel
+      (aux_kmapAllEmpty_count hcan)
+    simp [hntv, this]
+
+theorem hookTarget_keyedNo [DecidableEq κ] {m : KMap κ α} {d d1 : Drv} {nt : Bool}
+    {h1 h2 : Hook κ α} {out : List (Msg κ α)}
+    (ha : (Hook.keyedNo m none).auto d false = some (nt, h1, d1)) (hr : h1.release = some (h2, out)) :
+    HookTarget (Hook.keyedNo m none) ⟨nt, h1, h2, out⟩ := by
+  simp only [Hook.auto, Option.map_eq_some_iff] at ha
+  obtain ⟨⟨r1, m1, nt1, d1'⟩, hh, heq⟩ := ha
+  simp only [Prod.mk.injEq] at heq
+  obtain ⟨rfl, rfl, rfl⟩ := heq
+  obtain ⟨hrel, hnt⟩ := keyedNo_released_is_sublist_per_key hh
+  have hntv : nt1 = !r1.isEmpty := by
+    cases r1 <;> cases nt1 <;> simp_all
+  have reach : ∀ f : Bool, (f = true → r1 ≠ []) → FramedReach (Hook.keyedNo m none) f nt1 (.keyedNo m1 (some r1)) := by
+    intro f hf log
+    obtain ⟨tape, log', ht⟩ := aux_keyedNo_framed hrel f log hf
+    exact ⟨tape, log', fun rest => by simp [Hook.auto, keyedNoAuto, ht rest, hntv]⟩
+  refine ⟨rfl, reach false (by simp), ?_, hr, ?_⟩
+  · intro hn
+    simp only at hn
+    have := reach true (fun _ => hnt.mp hn)
+    rwa [hn] at this
+  · intro hcan
+    simp only [Hook.canNT, Bool.not_eq_eq_eq_not, Bool.not_false] at hcan
+    have := aux_keyedRel_empty (P := Split) (fun r q' h => (aux_split_of_nil h).1) hrel
+      (aux_kmapAllEmpty_count hcan)
+    simp [hntv, this]
+
+/-- hook kinds whose framed decision space is proved: every hook that `batch` / `snapshot` put into a
+tick except `KeyedSingletonHook` (the `TopLevel*` hooks are observations: one hook per `run_hooks`) -/
+def Hook.framable : Hook κ α → Bool
+  | .streamTotal _ _ => true
+  | .streamNo _ _ => true
+  | .keyedTotal _ _ => true
+  | .keyedNo _ _ => true
+  | .singleton _ => true
+  | .passthrough _ _ _ => true
+  | _ => false
+
+/-- every decision an idle framable hook takes on *some* tape is in its framed decision space -/
+theorem hookTarget_of_decision [DecidableEq κ] (h : Hook κ α) (hfr : h.framable = true) (hidle : h.cur = none)
+    {d d1 : Drv} {nt : Bool} {h1 h2 : Hook κ α} {out : List (Msg κ α)}
+    (ha : h.auto d false = some (nt, h1, d1)) (hr : h1.release = some (h2, out)) :
+    HookTarget h ⟨nt, h1, h2, out⟩ := by
+  cases h with
+  | streamTotal q r =>
+    have : r = none := by simpa [Hook.cur, relNonempty] using hidle
+    subst this; exact hookTarget_streamTotal ha hr
+  | streamNo q r =>
+    have : r = none := by simpa [Hook.cur, relNonempty] using hidle
+    subst this; exact hookTarget_streamNo ha hr
+  | keyedTotal m r =>
+    have : r = none := by simpa [Hook.cur, relNonempty] using hidle
+    subst this; exact hookTarget_keyedTotal ha hr
+  | keyedNo m r =>
+    have : r = none := by simpa [Hook.cur, relNonempty] using hidle
+    subst this; exact hookTarget_keyedNo ha hr
+  | singleton s =>
+    exact hookTarget_singleton (by simpa [Hook.cur] using hidle) ha hr
+  | passthrough q r last =>
+    have : r = none := by simpa [Hook.cur] using hidle
+    subst this; exact hookTarget_passthrough ha hr
+  | keyedSingleton _ _ _ => simp [Hook.framable] at hfr
+  | tlOrder _ _ => simp [Hook.framable] at hfr
+  | tlFold _ _ => simp [Hook.framable] at hfr
+  | tlKeyedOrder _ _ => simp [Hook.framable] at hfr
+  | tlPartial _ _ => simp [Hook.framable] at hfr
+  | tlMerge _ _ _ => simp [Hook.framable] at hfr
+  | tlKeyedMerge _ _ _ => simp [Hook.framable] at hfr
+
+theorem aux_targets_of_index [DecidableEq κ] : ∀ (hs : List (Hook κ α)) (res : List (Bool × Hook κ α × List (Msg κ α))),
+    res.length = hs.length → (∀ h ∈ hs, h.framable = true) → (∀ h ∈ hs, h.cur = none) →
+    (∀ i (hi : i < hs.length), ∃ (t : List Nat) (r : Bool × Hook κ α × List (Msg κ α)) (h1 : Hook κ α) (d1 : Drv),
+        res[i]? = some r ∧ hs[i].auto ⟨t, []⟩ false = some (r.1, h1, d1) ∧ h1.release = some (r.2.1, r.2.2)) →
+    ∃ ts : List (Target κ α), All₂ HookTarget hs ts ∧ ts.map (·.released) = res.map (·.2.1) ∧
+      ts.map (·.out) = res.map (·.2.2) ∧ ts.map (·.nt) = res.map (·.1) := by
+  intro hs
+  induction hs with
+  | nil =>
+    intro res hl _ _ _
+    have : res = [] := List.length_eq_zero_iff.mp (by simpa using hl)
+    subst this
+    exact ⟨[], .nil, rfl, rfl, rfl⟩
+  | cons h hs ih =>
+    intro res hl hfr hidle hdec
+    cases res with
+    | nil => simp at hl
+    | cons r res =>
+      obtain ⟨t, r0, h1, d1, hr0, ha, hrel⟩ := hdec 0 (by simp)
+      simp only [List.getElem?_cons_zero, Option.some.injEq] at hr0
+      subst hr0
+      simp only [List.getElem_cons_zero] at ha
+      have hht := hookTarget_of_decision h (hfr h (List.mem_cons_self ..)) (hidle h (List.mem_cons_self ..)) ha hrel
+      obtain ⟨ts, i1, i2, i3, i4⟩ := ih res (by simpa using hl)
+        (fun x hx => hfr x (List.mem_cons_of_mem _ hx)) (fun x hx => hidle x (List.mem_cons_of_mem _ hx))
+        (fun i hi => by
+          obtain ⟨t', r', h1', d1', a, b, c⟩ := hdec (i + 1) (by simpa using hi)
+          exact ⟨t', r', h1', d1', by simpa using a, by simpa using b, c⟩)
+      exact ⟨_ :: ts, .cons hht i1, by simp [i2], by simp [i3], by simp [i4]⟩
+
+/-- The proved part of `runHooksReachesEveryVectorStatement`: the full statement for ticks made of
+`StreamHook` (both orders), `KeyedStreamHook` (both orders), `SingletonHook` and
+`PassthroughSingletonHook` — every vector of per-hook decisions (each taken on some tape, unforced)
+with a non-trivial component is produced by `run_hooks` on some tape.  Missing for the full
+statement: the framed decision space of `KeyedSingletonHook` and of the `TopLevel*` hooks (the latter
+never share a `run_hooks` call: one observation = one hook, `runHooks_single_is_forced`). -/
+theorem runHooks_reaches_every_vector_partial [DecidableEq κ]
+    (hs : List (Hook κ α)) (tapes : List (List Nat)) (res : List (Bool × Hook κ α × List (Msg κ α)))
+    (hfr : ∀ h ∈ hs, h.framable = true)
+    (hidle : ∀ h ∈ hs, h.cur = none) (_htl : tapes.length = hs.length) (hrl : res.length = hs.length)
+    (hdec : ∀ i (hi : i < hs.length), ∃ t r h1 d1, tapes[i]? = some t ∧ res[i]? = some r ∧
+        hs[i].auto ⟨t, []⟩ false = some (r.1, h1, d1) ∧ h1.release = some (r.2.1, r.2.2))
+    (hsome : ∃ r ∈ res, r.1 = true) :
+    ∃ tape d', runHooks hs ⟨tape, []⟩ = some (res.map (·.2.1), res.map (·.2.2), true, d') := by
+  obtain ⟨ts, hft, e1, e2, e3⟩ := aux_targets_of_index hs res hrl hfr hidle (fun i hi => by
+    obtain ⟨t, r, h1, d1, _, b, c, e⟩ := hdec i hi
+    exact ⟨t, r, h1, d1, b, c, e⟩)
+  have hs' : ∃ t ∈ ts, t.nt = true := by
+    obtain ⟨r, hr, hrt⟩ := hsome
+    have : true ∈ res.map (·.1) := List.mem_map.mpr ⟨r, hr, hrt⟩
+    rw [← e3] at this
+    obtain ⟨t, ht, htn⟩ := List.mem_map.mp this
+    exact ⟨t, ht, htn⟩
+  obtain ⟨tape, d', hrun⟩ := runHooks_reaches_every_framed_vector hft hs'
+  exact ⟨tape, d', by rw [hrun, e1, e2]⟩
+
+/-- non-vacuity: a tick of a batch (2 pending) and a fold snapshot whose buffer is empty — the F36
+shape — reaches "release both items, re-release the unchanged snapshot" -/
+example : ∃ tape d', runHooks [Hook.streamTotal (κ := Nat) [10, 20] none, .passthrough [] none (some 0)] ⟨tape, []⟩
+    = some ([.streamTotal [] none, .passthrough [] none (some 0)], [[.item 10, .item 20], [.item 0]], true, d') :=
+  runHooks_reaches_every_vector_partial
+    [Hook.streamTotal (κ := Nat) [10, 20] none, .passthrough [] none (some 0)] [[2], []]
+    [(true, .streamTotal [] none, [.item 10, .item 20]), (false, .passthrough [] none (some 0), [.item 0])]
+    (by decide) (by decide) rfl rfl
+    (fun i hi => by
+      match i, hi with
+      | 0, _ => exact ⟨[2], _, .streamTotal [] (some [10, 20]), ⟨[], [.u 0 2 2]⟩, rfl, rfl, rfl, rfl⟩
+      | 1, _ => exact ⟨[], _, .passthrough [] (some (0, false)) (some 0), ⟨[], []⟩, rfl, rfl, rfl, rfl⟩)
+    ⟨_, List.mem_cons_self .., rfl⟩
 
 
 end HvSim
